@@ -49,13 +49,17 @@ func (bb *DefaultBallotBroadcaster) Ballot(
 func (bb *DefaultBallotBroadcaster) Broadcast(bl base.Ballot) error {
 	l := bb.Log().With().Interface("ballot", bl).Logger()
 
-	if err := bb.set(bl); err != nil {
+	// NOTE local node should not broadcast the different ballots for the same
+	// point, stage and suffrage confirm; only the ballot in pool, the first
+	// one, will be broadcasted.
+	nbl, err := bb.set(bl)
+	if err != nil {
 		l.Error().Err(err).Msg("failed to set ballot")
 
 		return err
 	}
 
-	if err := bb.broadcastFunc(bl); err != nil {
+	if err := bb.broadcastFunc(nbl); err != nil {
 		l.Error().Err(err).Msg("failed to broadcast ballot; keep going")
 
 		return err
@@ -66,17 +70,34 @@ func (bb *DefaultBallotBroadcaster) Broadcast(bl base.Ballot) error {
 	return nil
 }
 
-func (bb *DefaultBallotBroadcaster) set(bl base.Ballot) error {
+// set returns the ballot to be broadcasted; if the ballot is signed by local
+// and the pool already has the ballot of the same point, stage and suffrage
+// confirm, the ballot in pool is returned instead of the new one.
+func (bb *DefaultBallotBroadcaster) set(bl base.Ballot) (base.Ballot, error) {
 	bb.l.Lock()
 	defer bb.l.Unlock()
 
 	if !bl.SignFact().Node().Equal(bb.local) {
-		return nil
+		return bl, nil
 	}
 
-	if _, err := bb.pool.SetBallot(bl); err != nil {
-		return errors.WithMessage(err, "set ballot to pool")
+	switch isset, err := bb.pool.SetBallot(bl); {
+	case err != nil:
+		return nil, errors.WithMessage(err, "set ballot to pool")
+	case isset:
+		return bl, nil
 	}
 
-	return nil
+	switch pbl, found, err := bb.pool.Ballot(
+		bl.Point().Point,
+		bl.Point().Stage(),
+		isaac.IsSuffrageConfirmBallotFact(bl.SignFact().Fact()),
+	); {
+	case err != nil:
+		return nil, errors.WithMessage(err, "get ballot from pool")
+	case !found:
+		return nil, errors.Errorf("ballot already set in pool, but not found")
+	default:
+		return pbl, nil
+	}
 }
